@@ -30,6 +30,7 @@ type sqStep struct {
 	ZeroCost bool   `json:"zero_cost,omitempty"` // pass cost 0 (Set) / return Cost 0 (loader): the cost function supplies Cost
 	Anchor   string `json:"anchor,omitempty"`    // "" | deadline | tickboundary
 	Off      int64  `json:"off,omitempty"`
+	Park     bool   `json:"park,omitempty"` // set: the write is queued on the shard lock ahead of the expiry path of a forced tick
 }
 
 type sqCase struct {
@@ -378,7 +379,15 @@ func execSeq(c sqCase, x *verifkit.Ctx, c03, c06 bool, stats ...bool) (fail *ver
 				passCost = 0
 				r.cls["cost-from-cost-function"] = true
 			}
-			ok := r.s.Set(st.K, v, passCost, time.Duration(st.TTL))
+			var ok bool
+			if st.Park && !r.stalled && !r.tickReq {
+				var f *verifkit.Failure
+				if ok, f = r.parkedSet(st.K, v, passCost, st.TTL); f != nil {
+					return f
+				}
+			} else {
+				ok = r.s.Set(st.K, v, passCost, time.Duration(st.TTL))
+			}
 			if !c06 {
 				break
 			}
@@ -657,6 +666,48 @@ func execSeq(c sqCase, x *verifkit.Ctx, c03, c06 bool, stats ...bool) (fail *ver
 }
 
 
+// parkedSet performs Set(k, ...) while a forced tick runs, arranged so that on the shard lock of k
+// the write is queued AHEAD of the expiry path: the harness holds the lock, lets the writer
+// park on it, forces the tick, waits until the expiry path has arrived for k's entry (hook H4,
+// called right before it takes the lock) and is parked behind the writer, and releases the lock
+// after 2 ms (sync.Mutex is then in starvation mode and hands over strictly first-come).
+func (r *sqRun) parkedSet(k, v int, cost int64, ttl int64) (bool, *verifkit.Failure) {
+	_, idx := r.s.index(k)
+	sh := r.s.shards[idx]
+	arrived := make(chan struct{}, 1)
+	VerifExpireYieldFn = func(e any) {
+		if en, ok := e.(*Entry[int, int]); ok && en.key == k {
+			select {
+			case arrived <- struct{}{}:
+			default:
+			}
+		}
+	}
+	defer func() { VerifExpireYieldFn = nil }()
+	sh.mu.Lock()
+	done := make(chan bool, 1)
+	go func() { done <- r.s.Set(k, v, cost, time.Duration(ttl)) }()
+	time.Sleep(300 * time.Microsecond) // the writer is parked on the shard lock
+	r.requestTick()
+	select {
+	case <-arrived:
+		r.cls["write-parked-ahead-of-the-expiry-path"] = true
+		time.Sleep(2 * time.Millisecond)
+	case <-time.After(3 * time.Millisecond):
+		// this tick does not reclaim k's entry (not due, or its wheel slot is not reached yet)
+	}
+	sh.mu.Unlock()
+	var ok bool
+	select {
+	case ok = <-done:
+	case <-time.After(20 * time.Second):
+		f := r.failf("set/blocked", "Set(%d) parked on the shard lock did not return within 20 s after the lock was released", k)
+		f.Sticky = true
+		return false, f
+	}
+	return ok, r.awaitTick()
+}
+
 // cget / clget: counted reads (C16 sequential tier)
 func (r *sqRun) noteRead(k int) {
 	r.nGets++
@@ -853,6 +904,19 @@ func genC06(t *rapid.T) sqCase {
 		}
 	})
 	c.Steps = rapid.SliceOfN(stepGen, 2, 40).Draw(t, "steps")
+	// scenario: a TTL'd key expires, and the write that revives it races the tick that reclaims it
+	for n := rapid.IntRange(0, 2).Draw(t, "parkScenarios"); n > 0; n-- {
+		k := rapid.IntRange(0, c.Keys-1).Draw(t, "parkKey")
+		sc := []sqStep{
+			{Op: "set", K: k, Cost: 1, TTL: rapid.SampledFrom([]int64{1, 1e6, 2e9}).Draw(t, "parkTTL0")},
+			{Op: "wait"},
+			{Op: "adv", Anchor: "deadline", K: k, Off: rapid.SampledFrom([]int64{0, 1, 1 << 30, 3e9}).Draw(t, "parkOff")},
+			{Op: "set", K: k, Cost: 1, TTL: rapid.SampledFrom([]int64{0, 10e9, 3600e9}).Draw(t, "parkTTL1"), Park: true},
+			{Op: "get", K: k},
+		}
+		pos := rapid.IntRange(0, len(c.Steps)).Draw(t, "parkPos")
+		c.Steps = append(c.Steps[:pos:pos], append(sc, c.Steps[pos:]...)...)
+	}
 	return c
 }
 
@@ -875,7 +939,7 @@ func TestVerifC06Seq(t *testing.T) {
 	verifkit.Run(t, verifkit.Spec[sqCase]{
 		ID: "C06", Gen: genC06,
 		Exec:        func(c sqCase, x *verifkit.Ctx) *verifkit.Failure { return execSeq(c, x, false, true) },
-		Rule:        "C06: rapid draws MaxSize in {1,2,5,10,50}, doorkeeper, loading, a no-pressure/pressure mode and up to 40 steps of Set/SetWithTTL (cost classes 1, MaxSize, MaxSize+1, 5*MaxSize, 1..MaxSize; in a third of the cases the store has a cost function and half of the writes/loads pass cost 0 so that it supplies the cost) / Get / loading Get with scripted loader cost+TTL / Delete / advance / forced tick / Wait; non-trivial = a key was written after its earlier value expired, or TTL and non-TTL writes were mixed on one key, or an oversized cost went through Set or the loader",
+		Rule:        "C06: rapid draws MaxSize in {1,2,5,10,50}, doorkeeper, loading, a no-pressure/pressure mode and up to 40 steps of Set/SetWithTTL (cost classes 1, MaxSize, MaxSize+1, 5*MaxSize, 1..MaxSize; in a third of the cases the store has a cost function and half of the writes/loads pass cost 0 so that it supplies the cost) / Get / loading Get with scripted loader cost+TTL / Delete / advance / forced tick / Wait, plus scenarios in which the Set that revives an expired key is queued on the shard lock ahead of the expiry path of a forced tick (harness holds the lock, hook H4 reports the expiry path's arrival); non-trivial = a key was written after its earlier value expired, or TTL and non-TTL writes were mixed on one key, or an oversized cost went through Set or the loader",
 		Assumptions: append([]string{"no-pressure mode: the executor skips a write that would push the cost of all entries not yet reported EXPIRED/EVICTED above MaxSize (conservative reading of 'live keys')"}, sqAssumptions...),
 	})
 }
